@@ -43,6 +43,9 @@ type c01Spec struct {
 	SCache    bool     `json:"sch"`
 	SMode     int      `json:"sm"` // 0 direct, 1 clone, 2 GetConfigForClient returning a clone
 	NConn     int      `json:"n"`
+	// CSuites2 (with NConn >= 2): from the second connection on the client uses a clone of its
+	// configuration (same session cache) whose suite list is CSuites2
+	CSuites2 []uint16 `json:"cs2,omitempty"`
 	Sizes     []int    `json:"sz"` // echo payload sizes (client->server, server->client)
 }
 
@@ -275,7 +278,16 @@ func c01Run(s c01Spec) (sig, msg string, classes []string) {
 		n = 1
 	}
 	resumedBefore := false
+	var prevSuite uint16
+	var prevCli [][]byte
 	for conn := 0; conn < n; conn++ {
+		if conn == 1 && s.CSuites2 != nil {
+			ccfg = ccfg.Clone()
+			ccfg.CipherSuites = s.CSuites2
+			s2 := s
+			s2.CSuites, s2.CSuitesNil = s.CSuites2, false
+			exp = c01Model(s2)
+		}
 		sz := [2]int{64, 64}
 		if len(s.Sizes) >= 2 {
 			sz = [2]int{s.Sizes[0], s.Sizes[1]}
@@ -337,9 +349,21 @@ func c01Run(s c01Spec) (sig, msg string, classes []string) {
 		if r.CS.CipherSuite != r.SS.CipherSuite {
 			return "suite-disagree", pre + fmt.Sprintf("client reports suite %x, server %x", r.CS.CipherSuite, r.SS.CipherSuite), nil
 		}
-		if r.CS.CipherSuite != exp.Suite {
-			return "suite-priority", pre + fmt.Sprintf("negotiated %x, documented priority gives %x", r.CS.CipherSuite, exp.Suite), nil
+		// a session is resumed (with its own suite) when both sides cache and the client still offers that suite
+		wantResume := conn > 0 && s.CCache && s.SCache && prevSuite != 0
+		if wantResume && conn >= 1 && s.CSuites2 != nil && len(s.CSuites2) > 0 && !c01Has(s.CSuites2, prevSuite) {
+			wantResume = false
 		}
+		wantSuite := exp.Suite
+		if wantResume {
+			wantSuite = prevSuite
+			exp.CliCerts = prevCli // a resumed connection has the peer identity of the original
+		}
+		prevCli = exp.CliCerts
+		if r.CS.CipherSuite != wantSuite {
+			return "suite-priority", pre + fmt.Sprintf("negotiated %x, expected %x (documented priority gives %x; session suite %x, resumption expected: %v)", r.CS.CipherSuite, wantSuite, exp.Suite, prevSuite, wantResume), nil
+		}
+		prevSuite = r.CS.CipherSuite
 		if ws, ok := vfServerHelloSuite(r); ok && ws != r.CS.CipherSuite {
 			return "suite-wire", pre + fmt.Sprintf("ServerHello on the wire carries %x but endpoints report %x", ws, r.CS.CipherSuite), nil
 		}
@@ -352,7 +376,6 @@ func c01Run(s c01Spec) (sig, msg string, classes []string) {
 		if r.CS.DidResume != r.SS.DidResume {
 			return "resume-disagree", pre + fmt.Sprintf("DidResume client=%v server=%v", r.CS.DidResume, r.SS.DidResume), nil
 		}
-		wantResume := conn > 0 && s.CCache && s.SCache
 		if r.CS.DidResume != wantResume {
 			return "resume-model", pre + fmt.Sprintf("DidResume=%v, expected %v", r.CS.DidResume, wantResume), nil
 		}
@@ -425,6 +448,9 @@ func c01SpecGen() *rapid.Generator[c01Spec] {
 		s.SCache = rapid.Bool().Draw(t, "sch")
 		s.SMode = rapid.IntRange(0, 2).Draw(t, "sm")
 		s.NConn = rapid.IntRange(1, 3).Draw(t, "n")
+		if s.NConn >= 2 && rapid.IntRange(0, 3).Draw(t, "reconf") == 0 {
+			s.CSuites2 = c01SuiteListGen().Draw(t, "cs2")
+		}
 		max := 40000
 		if vfStack == "dtlcp" {
 			max = 5000
@@ -439,7 +465,7 @@ func c01NonTrivial(s c01Spec) bool {
 }
 
 func TestVF_C01(t *testing.T) {
-	rec := vfRec("C01", "C01-negotiate", "pairs of configuration specs (suite subsets and orders incl. unknown ids and nil=default, 0/1/2 client key pairs static or via callbacks, client certificate issuer, verification on/off, server name none/matching/mismatching, 7 ALPN lists per side, session cache on/off, config used directly / via Clone / via GetConfigForClient, six client-auth policies, ClientCAs nil/A/B, 1-3 consecutive connections, echo sizes) checked against a negotiation model; non-trivial = anything but the all-default pair; distinct = hash of the spec")
+	rec := vfRec("C01", "C01-negotiate", "pairs of configuration specs (suite subsets and orders incl. unknown ids and nil=default, 0/1/2 client key pairs static or via callbacks, client certificate issuer, verification on/off, server name none/matching/mismatching, 7 ALPN lists per side, session cache on/off, config used directly / via Clone / via GetConfigForClient, six client-auth policies, ClientCAs nil/A/B, 1-3 consecutive connections (optionally with the client's suite list changed from the second one on), echo sizes) checked against a negotiation model; non-trivial = anything but the all-default pair; distinct = hash of the spec")
 	check := func(s c01Spec, fail func(sig, msg string)) {
 		sig, msg, classes := c01Run(s)
 		if sig != "" {
